@@ -137,8 +137,14 @@ class Ctx:
             "wall_s": round(wall, 3),
             "violations": self.total_new,
         }
-        os.makedirs(os.path.join(VERIF, "evidence"), exist_ok=True)
-        with open(os.path.join(VERIF, "evidence", f"{self.prop}.json"), "w") as f:
+        # evidence/<id>.json describes runs against /repo; a run pointed at another tree (VERIF_REPO: seeded defects, mutants,
+        # refactorings) must not overwrite it
+        other = os.path.realpath(os.environ.get("VERIF_REPO", "/repo")) != os.path.realpath("/repo")
+        evdir = os.path.join(VERIF, "evidence_other_tree" if other else "evidence")
+        os.makedirs(evdir, exist_ok=True)
+        if other:
+            ev["tree"] = os.environ["VERIF_REPO"]
+        with open(os.path.join(evdir, f"{self.prop}.json"), "w") as f:
             json.dump(ev, f, indent=1, default=repr)
         n = self.total_new
         print(f"[{self.prop}] tier={self.tier} seed={self.seed} wall={wall:.1f}s violations={n} "
